@@ -20,13 +20,18 @@ Frag(f) ==
   IF f.k = "L" THEN [k |-> "L", s |-> Pt(f.s), e |-> Pt(f.e), b |-> B(f.b), cells |-> Cells2(f.cells)]
   ELSE IF f.k = "A" THEN [k |-> "A", s |-> Pt(f.s), e |-> Pt(f.e), r |-> f.r, sw |-> B(f.sw), mj |-> B(f.mj), cells |-> Cells2(f.cells)]
   ELSE IF f.k = "C" THEN [k |-> "C", c |-> Pt(f.c), r |-> f.r]
+  ELSE IF f.k = "P" THEN [k |-> "P", pts |-> [i \in 1..Len(f.pts) |-> Pt(f.pts[i])], cells |-> Cells2(f.cells)]
   ELSE IF f.k = "R" THEN [k |-> "R", s |-> Pt(f.s), e |-> Pt(f.e), r |-> f.r, b |-> B(f.b)]
   ELSE [k |-> "T", cell |-> Pt(f.cell), s |-> f.t, cells |-> Cells2(f.cells)]
 NoCells(f) == IF f.k = "A" THEN [k |-> "A", s |-> f.s, e |-> f.e, r |-> f.r, sw |-> f.sw, mj |-> f.mj] ELSE f
 Frags(fs) == [i \in 1..Len(fs) |-> Frag(fs[i])]
 Groups(gs) == [i \in 1..Len(gs) |-> Frags(gs[i])]
 Span2(sp) == [i \in 1..Len(sp) |-> Pt(sp[i])]
+SameBagSeq(s1, s2) == Len(s1) = Len(s2) /\ \A x \in RangeOf(s1) \cup RangeOf(s2) :
+   Cardinality({ i \in 1..Len(s1) : s1[i] = x }) = Cardinality({ i \in 1..Len(s2) : s2[i] = x })
 Mark(ok, tag) == IF ok THEN bad ELSE bad \cup {<<l, tag>>}
+\* diagnostics: on a mismatch print what the model expected next to what was logged
+Diag(ok, tag, model, logged) == IF ok THEN TRUE ELSE PrintT(<<"MISMATCH", l, tag, "model", model, "logged", logged>>)
 
 Init == l = 1 /\ bad = {} /\ cs = <<>> /\ merged = <<>> /\ contacts = <<>> /\ rejects = <<>> /\ ninv = 0
 Step(ev) ==
@@ -45,7 +50,11 @@ Step(ev) ==
          /\ UNCHANGED <<cs, merged, contacts, rejects, ninv>>
     [] ev.ev = "merged" ->
          LET logged == Frags(ev.frags) model == Merged(cs, Span2(ev.span)) IN
-         /\ bad' = Mark(logged = model, "merged")
+         \* compared as bags: the code sorts the fragments of a cell with a comparison that is not a total
+         \* order across kinds (polygon-polygon by first/last vertex, polygon-line by bounding box), so their
+         \* relative order is an artefact of the sort routine; the model continues from the logged order
+         /\ Diag(SameBagSeq(logged, model), "merged", model, logged)
+         /\ bad' = Mark(SameBagSeq(logged, model), "merged")
                    \cup (IF \A i, j \in 1..Len(logged) : i # j => ~FragCan(logged[i], logged[j]) THEN {} ELSE {<<l, "inv:merge-fixpoint">>})
          /\ merged' = logged /\ UNCHANGED <<cs, contacts, rejects>> /\ ninv' = ninv + 1
     [] ev.ev = "contacts" ->
